@@ -12,7 +12,7 @@ PROPS = {
     "C05": {"suites": SEQ("C05", 1500, 60000), "design": "6/C05"},
     "C06": {"suites": SEQ("C06", 1500, 60000), "design": "6/C06"},
     "C07": {"suites": SEQ("C07", 1500, 60000), "design": "6/C07"},
-    "C08": {"suites": SEQ("C08", 1500, 60000), "design": "6/C08"},
+    "C08": {"suites": {"quick": SEQ("C08", 1500, 60000)["quick"] + [("stress", {"count": 1000})], "thorough": SEQ("C08", 1500, 60000)["thorough"] + [("stress", {"count": 20000})]}, "design": "6/C08"},
     "C11": {"suites": SEQ("C11", 1500, 60000), "design": "6/C11"},
     "C19": {"suites": {"quick": [("seq", {"profile": "C19", "count": 1000})], "thorough": [("seq", {"profile": "C19", "count": 40000})]}, "design": "6/C19"},
 }
@@ -29,7 +29,7 @@ PROPS.update({
             "design": "6/C10", "projection": core.framing_projection()},
 })
 
-POLICY = lambda prof, q, t: {"quick": [("policy", {"profile": prof, "count": q})], "thorough": [("policy", {"profile": prof, "count": t})]}
+POLICY = lambda prof, q, t: {"quick": [("policy", {"profile": prof, "count": q}), ("stress", {"count": 1000})], "thorough": [("policy", {"profile": prof, "count": t}), ("stress", {"count": 20000})]}
 PROPS.update({
     "C14": {"suites": POLICY("C14", 600, 30000), "design": "6/C14", "projection": core.policy_projection()},
     "C15": {"suites": POLICY("C15", 300, 10000), "design": "6/C15", "projection": core.policy_projection()},
@@ -53,8 +53,8 @@ RULE_SERVER = ("server: scripted connection life-cycles against a real MemcacheT
 PROPS.update({
     "C03": {"suites": {"quick": [("sched", {"profile": "C03", "count": 150, "per_case": 60}), ("stress", {"count": 1500})],
                        "thorough": [("sched", {"profile": "C03", "count": 1500, "per_case": 2000}), ("stress", {"count": 30000})]}, "design": "6/C03"},
-    "C04": {"suites": {"quick": [("sched", {"profile": "C04", "count": 150, "per_case": 60})],
-                       "thorough": [("sched", {"profile": "C04", "count": 1500, "per_case": 2000})]}, "design": "6/C04"},
+    "C04": {"suites": {"quick": [("sched", {"profile": "C04", "count": 150, "per_case": 60}), ("stress", {"count": 1000})],
+                       "thorough": [("sched", {"profile": "C04", "count": 1500, "per_case": 2000}), ("stress", {"count": 20000})]}, "design": "6/C04"},
     "C16": {"suites": {"quick": [("sched", {"profile": "C04", "count": 60, "per_case": 40}), ("stress", {"count": 600}), ("seq", {"profile": "C05", "count": 600}), ("policy", {"profile": "C14", "count": 200})],
                        "thorough": [("sched", {"profile": "C04", "count": 1000, "per_case": 500}), ("stress", {"count": 20000}), ("seq", {"profile": "C05", "count": 20000}), ("policy", {"profile": "C14", "count": 10000})]},
             "design": "6/C16", "only_hangs": True},
